@@ -200,6 +200,11 @@ impl<'a, 'b, 'c, const N: usize> VxContainsStr<&'a &'b Str> for [&'c Str; N] {
     fn vx_contains_str(&self, x: &'a &'b Str) -> (r: bool) { unimplemented!() }
 }
 
+impl<'a, 'b, 'c> VxContainsStr<&'a &'b Str> for [&'c Str] {
+    #[verifier::external_body]
+    fn vx_contains_str(&self, x: &'a &'b Str) -> (r: bool) ensures r == strs_view(self@).contains((**x)@) { unimplemented!() }
+}
+
 // Vec<String>::reverse() and [String]::join(sep) (method_to_fn reverse -> vx_reverse_strs, join -> vx_join_strs)
 pub open spec fn flat_strs(parts: Seq<Str>, n: int) -> Seq<char> decreases n
 { if n <= 0 { Seq::empty() } else { flat_strs(parts, n - 1) + parts[n - 1]@ } }
